@@ -205,3 +205,96 @@ Proof.
     { apply abs_sq_le. exact Hdk. }
     lra.
 Qed.
+
+(* ----------------------------------------------- Haar-Euler grid: the beta rows *)
+(* nodes of np.linspace(a, b, m + 1, endpoint=True): a + k (b - a) / m, k = 0..m *)
+Lemma linspace_closed_in a b m k : (1 <= m)%nat -> (k <= m)%nat ->
+  In (a + INR k * ((b - a) / INR m)) (linspace ROps a b (S m) true).
+Proof.
+  intros Hm Hk. assert (HM : 0 < INR m) by (apply lt_0_INR; lia).
+  unfold linspace. cbn [andb]. replace (1 <? S m)%nat with true by (symmetry; apply Nat.ltb_lt; lia).
+  rewrite removelast_map_seq. replace (S m - 1)%nat with m by lia. rewrite ofN_R.
+  replace (m =? 0)%nat with false by (symmetry; apply Nat.eqb_neq; lia). rsimpl.
+  destruct (Nat.eq_dec k m) as [->|Hne].
+  - apply in_or_app. right. left. field. lra.
+  - apply in_or_app. left. apply in_map_iff. exists k. split; [|apply in_seq; lia].
+    rewrite ofN_R. ring.
+Qed.
+
+(* cos(beta) runs over 1 - 2k/half, k = 0..half: both ends included *)
+Lemma haar_beta_in n k : (2 <= n)%nat -> (k <= Nat.div2 n)%nat ->
+  In (acos (1 - INR k * (2 / INR (Nat.div2 n)))) (haar_euler_beta ROps n).
+Proof.
+  intros Hn Hk. unfold haar_euler_beta.
+  assert (Hh : (1 <= Nat.div2 n)%nat).
+  { destruct n as [|[|n']]; [lia|lia|]. cbn [Nat.div2]. lia. }
+  assert (HM : 0 < INR (Nat.div2 n)) by (apply lt_0_INR; lia).
+  change (o_acos ROps) with acos. apply in_map_iff.
+  exists (1 + INR k * ((-1 - 1) / INR (Nat.div2 n))). split; [f_equal; field; lra|].
+  pose proof (linspace_closed_in 1 (-1) (Nat.div2 n) k Hh Hk) as H.
+  unfold c1. change (o_ofZ ROps 1) with 1. change (o_ofZ ROps (-1)) with (-1). exact H.
+Qed.
+
+Lemma haar_beta_poles n : (2 <= n)%nat ->
+  In 0 (haar_euler_beta ROps n) /\ In PI (haar_euler_beta ROps n).
+Proof.
+  intros Hn.
+  assert (Hh : (1 <= Nat.div2 n)%nat).
+  { destruct n as [|[|n']]; [lia|lia|]. cbn [Nat.div2]. lia. }
+  assert (HM : 0 < INR (Nat.div2 n)) by (apply lt_0_INR; lia).
+  split.
+  - pose proof (haar_beta_in n 0 Hn (Nat.le_0_l _)) as H. simpl INR in H.
+    replace (1 - 0 * (2 / INR (Nat.div2 n))) with 1 in H by ring. rewrite acos_1 in H. exact H.
+  - pose proof (haar_beta_in n (Nat.div2 n) Hn (Nat.le_refl _)) as H.
+    replace (1 - INR (Nat.div2 n) * (2 / INR (Nat.div2 n))) with (Ropp 1) in H by (field; lra).
+    rewrite acos_opp, acos_1 in H. replace (PI - 0) with PI in H by ring. exact H.
+Qed.
+
+(* every (alpha, beta, gamma) node is a grid point *)
+Lemma haar_grid_in n a b g :
+  In a (linspace ROps (c0 ROps) (twopi ROps) n false) -> In b (haar_euler_beta ROps n) ->
+  In g (linspace ROps (c0 ROps) (twopi ROps) n false) ->
+  In (eu2qu ROps (a, b, g)) (haar_euler_grid ROps n).
+Proof.
+  intros Ha Hb Hg. unfold haar_euler_grid, haar_euler_angles. apply in_map.
+  apply in_flat_map. exists g. split; [exact Hg|].
+  apply in_flat_map. exists a. split; [exact Ha|].
+  apply (in_map (fun b0 => (a, b0, g))). exact Hb.
+Qed.
+
+(* the rows Phi = 0 AND Phi = pi belong to the grid (before the repair of
+   _euler_angles_haar_measure the last row was arccos(-1 + 2/half)) *)
+Lemma haar_euler_reaches_poles n a g : (2 <= n)%nat ->
+  In a (linspace ROps (c0 ROps) (twopi ROps) n false) ->
+  In g (linspace ROps (c0 ROps) (twopi ROps) n false) ->
+  In (eu2qu ROps (a, 0, g)) (haar_euler_grid ROps n) /\
+  In (eu2qu ROps (a, PI, g)) (haar_euler_grid ROps n).
+Proof.
+  intros Hn Ha Hg. destruct (haar_beta_poles n Hn) as [H0 H1].
+  split; apply haar_grid_in; assumption.
+Qed.
+
+(* no hole in Phi: for every Phi in [0, pi] a row beta of the grid has
+   |cos beta - cos Phi| <= 1 / half, half of the spacing 2 / half of the cosines,
+   uniformly up to both poles *)
+Lemma haar_euler_beta_covers n Phi : (2 <= n)%nat -> 0 <= Phi <= PI ->
+  exists b, In b (haar_euler_beta ROps n) /\ 0 <= b <= PI /\
+            Rabs (cos b - cos Phi) <= 1 / INR (Nat.div2 n).
+Proof.
+  intros Hn HP.
+  assert (Hh : (1 <= Nat.div2 n)%nat).
+  { destruct n as [|[|n']]; [lia|lia|]. cbn [Nat.div2]. lia. }
+  set (m := Nat.div2 n) in *.
+  assert (HM : 0 < INR m) by (apply lt_0_INR; lia).
+  set (h := 2 / INR m). assert (Hh0 : 0 < h) by (unfold h; apply Rdiv_lt_0_compat; lra).
+  assert (Em : INR m * h = 2) by (unfold h; field; lra).
+  pose proof (COS_bound Phi) as [C0 C1].
+  destruct (nearest_grid h m (1 - cos Phi) Hh0) as [k [Hk Hd]]; [rewrite Em; lra|].
+  exists (acos (1 - INR k * h)). split; [apply haar_beta_in; assumption|].
+  assert (Hr : -1 <= 1 - INR k * h <= 1).
+  { assert (0 <= INR k) by apply pos_INR. assert (INR k <= INR m) by (apply le_INR; exact Hk). split; nra. }
+  split; [apply acos_bound|].
+  rewrite cos_acos by exact Hr.
+  replace (1 - INR k * h - cos Phi) with (1 - cos Phi - INR k * h) by ring.
+  replace (1 / INR m) with (h / 2) by (unfold h; field; lra). exact Hd.
+Qed.
